@@ -414,6 +414,92 @@ def check_arrays(mod, col: Collector, tier: str):
                 else:
                     ok, exp = False, None
                 col.attempt(m, f"ba[{i}]={v!r}", lambda: arr.__setitem__(i, v), "in" if ok else "out", lambda: m.ba[i][0], exp)
+        # ... from carriers that expose their memory (array.array, ctypes arrays, memoryviews): judged on the VALUES they hold
+        import array as _array
+
+        def carriers(vals):
+            out = []
+            for code in ("B", "h", "i", "q", "b"):
+                try:
+                    out.append((f"array({code!r})", _array.array(code, vals)))
+                except (OverflowError, TypeError):
+                    pass
+            for tn in ("uint8", "int16", "int32", "int8"):
+                try:
+                    lo_, hi_ = valx.int_bounds(tn)
+                    if all(lo_ <= v <= hi_ for v in vals):
+                        out.append((f"ctypes({tn})", (getattr(ctypes, "c_" + tn) * len(vals))(*vals)))
+                except Exception:
+                    pass
+            for code in ("h", "i"):
+                try:
+                    out.append((f"memoryview(array({code!r}))", memoryview(_array.array(code, vals))))
+                except (OverflowError, TypeError):
+                    pass
+            return out
+
+        seqs = [list(goodb)]
+        for pos in range(n):
+            for bad in (256, -1, 300, 0x0101):
+                sq = list(goodb)
+                sq[pos] = bad
+                seqs.append(sq)
+        for sq in seqs:
+            allin = all(0 <= v <= 255 for v in sq)
+            for cname, car in carriers(sq):
+                try:
+                    held = list(car)
+                except Exception:
+                    continue
+                vd = "out" if any(not (0 <= v <= 255) for v in held) else ("in" if cname in ("array('B')", "ctypes(uint8)") else "unspecified")
+                for how in ("whole", "slice"):
+                    m = Mn()
+                    m.ba = [9] * n
+                    arr = m.ba
+                    act = (lambda: setattr(m, "ba", car)) if how == "whole" else (lambda: arr.__setitem__(slice(0, n), car))
+                    col.attempt(m, f"ba[{n}]={how}:{cname}({sq!r})", act, vd, lambda: bytes(m.ba[:]), bytes(held) if vd == "in" else None)
+        # the same values arriving in bulk - a dictionary / a JSON text turned into a message: one out-of-domain array element, every position
+        import json as _json
+
+        base_d = Mn().to_dict()
+        for t in list(valx.INT_TYPES) + list(valx.FLOAT_TYPES) + ["bytes"]:
+            isint = t in valx.INT_TYPES or t == "bytes"
+            f = f"a_{t}" if t != "bytes" else "ba"
+            if f not in base_d:
+                continue
+            good = [1, 2, 3, 4][:n] if isint else [1.5, -2.5, 0.0, 4.0][:n]
+            if t == "bytes":
+                bl = [256, -1, 1.5, None, "a"]
+            elif isint:
+                lo_, hi_ = valx.int_bounds(t)
+                bl = [hi_ + 1, lo_ - 1, 1.5, None, "1"]
+            else:
+                bl = [(F32MAX if t == "float" else F64MAX) * 4 if t == "float" else None, None, "1.0", [1.0]]
+                bl = [b for b in bl if b is not None or True]
+            for pos in range(n):
+                for bad in bl:
+                    if not isint and isinstance(bad, float) and float_verdict(t, bad) != "out":
+                        continue
+                    sq = list(good)
+                    sq[pos] = bad
+                    d = dict(base_d)
+                    d[f] = sq
+                    m = Mn()
+                    col.attempt(m, f"from_dict({f}=bad@{pos}:{bad!r})", lambda: Mn.from_dict(d), "out")
+                    try:
+                        txt = _json.dumps(d)
+                    except Exception:
+                        continue
+                    m = Mn()
+                    col.attempt(m, f"from_json({f}=bad@{pos}:{bad!r})", lambda: Mn.from_json(txt), "out")
+            d = dict(base_d)
+            d[f] = list(good)
+            m = Mn()
+            holder = {}
+            col.attempt(m, f"from_dict({f}=good)", lambda: holder.__setitem__("m", Mn.from_dict(d)), "in",
+                        lambda: [x if not isinstance(x, bytes) else x[0] for x in getattr(holder["m"], f)[:]] if t != "bytes" else list(bytes(holder["m"].ba[:])),
+                        [float_conv(t, x) for x in good] if not isint else list(good),
+                        None if isint else (lambda a, b: len(a) == len(b) and all(same_float(x, y) for x, y in zip(a, b))))
         # struct arrays
         gs = [mod.VSUB() for _ in range(n)]
         for j, g in enumerate(gs):
